@@ -439,13 +439,33 @@ def run(chk):
     tu = h.parse('c11')
     chk.unit(tu)
     n_ops = n_div = 0
+    undecided = []
     callees = set()
     for name, text, row in tpls:
         f = tu.fn(name)
         stmts = ct.statements(f)
         site = 'template/' + (row['name'] if row else name)
+        n_before = len(chk.obligations)
         n_ops += ub_scan(chk, 'R11', name, stmts, tu, site, text)
         n_div += division_guards(chk, name, stmts, tu, site, text)
+        new_fail = [o for o in chk.obligations[n_before:] if not o['ok']]
+        if new_fail and row and row['sem'].get('cls') in ('bin', 'icmp', 'eqz', 'shift', 'rot', 'div', 'rem', 'clz', 'ctz', 'popcnt', 'wrap', 'extend'):
+            # the type-based rules did not recognise how this integer template avoids undefined behaviour: search a witness by exact
+            # evaluation on the boundary grid.  With a witness the reports stand; without one the template is not decided (exit 2)
+            st1 = [s_ for s_ in stmts if s_.get('kind') != 'NullStmt']
+            e1 = ct.simplify(st1[0], tu) if len(st1) == 1 else None
+            if e1 is not None and e1.k == 'assign':
+                ops_ = [mr.slot(tabs, t_, len(mr.FILLER) + k_) for k_, t_ in enumerate(row['params'])]
+                try:
+                    wit = sr.ub_on_grid(row, e1.a[1], ops_)
+                except AnalysisBroken:
+                    wit = 'not evaluable'
+                if wit is None:
+                    for o in new_fail:
+                        chk.obligations.remove(o)
+                    undecided.append('%s: %s' % (name, '; '.join(o['detail'][:120] for o in new_fail[:2])))
+                elif wit != 'not evaluable':
+                    chk.note('%s: undefined behaviour witnessed for %s' % (name, wit))
         if row and row['sem'].get('cls') == 'trunc':
             # exact decision on the order abstraction of the guard constants (shared with C02 R02.5): only undefined
             # conversions are C11's business, wrong-but-defined results belong to C02
@@ -532,6 +552,9 @@ def run(chk):
     from . import c09
     c09.check_twins(chk, tus, rule='R11.10')
     compile_witness(chk, h.source(), chk.tier)
+    if undecided and not chk.unlisted_violations():
+        raise AnalysisBroken('templates whose freedom from undefined behaviour is not recognised by the type-based rules and not refuted on '
+                             'the boundary grid: %s' % ' | '.join(undecided[:4]))
     check_string_positions(chk, tus)
     chk.floor('R11.3', 8)
     chk.floor('R11.4', 16)
